@@ -22,6 +22,7 @@ import (
 	"github.com/olric-data/olric/events"
 	"github.com/olric-data/olric/internal/cluster/partitions"
 	"github.com/olric-data/olric/internal/protocol"
+	"github.com/olric-data/olric/internal/verifhook"
 	"github.com/olric-data/olric/pkg/neterrors"
 	"github.com/olric-data/olric/pkg/storage"
 	"github.com/tidwall/redcon"
@@ -44,6 +45,7 @@ func (dm *DMap) fragmentMergeFunction(f *fragment, hkey uint64, entry storage.En
 		return err
 	}
 
+	verifhook.At("merge.conflict", dm.s.rt.This().String(), dm.name, entry.Key())
 	versions := []*version{{entry: current}, {entry: entry}}
 	versions = dm.sortVersions(versions)
 	winner := versions[0].entry
@@ -63,6 +65,7 @@ func (dm *DMap) mergeFragments(part *partitions.Partition, fp *fragmentPack) err
 	// Acquire fragment's lock. No one should work on it.
 	f.Lock()
 	defer f.Unlock()
+	verifhook.At("merge.locked", dm.s.rt.This().String(), dm.name, part.ID(), part.Kind().String())
 
 	return f.storage.Import(fp.Payload, func(hkey uint64, entry storage.Entry) error {
 		return dm.fragmentMergeFunction(f, hkey, entry)
@@ -140,6 +143,7 @@ func (s *Service) moveFragmentCommandHandler(conn redcon.Conn, cmd redcon.Comman
 		protocol.WriteError(conn, err)
 		return
 	}
+	verifhook.At("merge.done", s.rt.This().String(), fp.Name, fp.PartID, fp.Kind.String())
 
 	if s.config.EnableClusterEventsChannel {
 		e := &events.FragmentReceivedEvent{
